@@ -162,7 +162,10 @@ def run_tlc(module_path, cfg_path, *, lib_areas=(), workers=None, simulate=None,
     workers = workers or NCPU
     moddir = os.path.dirname(os.path.abspath(module_path))
     metadir = metadir or os.path.join(moddir, "meta-%s-%d" % (os.path.basename(module_path), int(time.time() * 1000) % 10**9))
-    java = ["java", "-XX:+UseParallelGC", "-Xmx" + heap, "-Xss64m", "-DTLA-Library=" + tla_library(*lib_areas)]
+    # many small single-worker JVMs run side by side: a serial collector and a capped JIT keep them from
+    # fighting over the cores; big multi-worker runs keep the parallel collector
+    gc = ["-XX:+UseSerialGC", "-XX:CICompilerCount=2", "-XX:TieredStopAtLevel=4"] if workers <= 2 else ["-XX:+UseParallelGC", "-XX:ParallelGCThreads=%d" % max(2, min(workers, 8))]
+    java = ["java"] + gc + ["-Xmx" + heap, "-Xss64m", "-DTLA-Library=" + tla_library(*lib_areas)]
     if dfs:
         java.append("-Dtlc2.tool.queue.IStateQueue=StateDeque")
     cmd = java + ["-cp", TLA_JARS, "tlc2.TLC", "-workers", str(workers), "-metadir", metadir,
@@ -244,7 +247,7 @@ class Check:
         self.exhaustive = None
         self.parts = {}
         kf = load_known_findings()
-        self.known = [k for k in kf.get("findings", []) if k["property"] == prop]
+        self.known = [k for k in kf.get("findings", []) if k.get("property") == prop or prop in k.get("properties", [])]
 
     # --- accounting
     def add_tlc(self, res, part=None):
